@@ -83,7 +83,17 @@ def generate(src, die, coq_str):
     if not m:
         die("from_detailed_parameters: the scheme handling is not recognised: %r" % t[:400])
     e_https, e_http, e_sup, f_http, f_https, f_ws, f_sup = m.groups()
+    # ---- Request::preparsed: where the scheme text is cut off the URL
+    tp = norm(_bs.fn_body(b, r"pub fn preparsed\(\s*url: &str,\s*hostname: &str,\s*source_hostname: &str,\s*request_type: &str,\s*third_party: bool,\s*\)\s*->\s*Request\s*\{", die))
+    mp = re.fullmatch(r"letsplitter=memchr::memchr\(b'(.)',url\.as_bytes\(\)\)\.unwrap_or\((\d+)\);letschema:&str=&url\[\.\.splitter\];"
+                      r"Request::from_detailed_parameters\(request_type,url,schema,hostname,source_hostname,third_party,url\.to_string\(\),\)", tp)
+    if not mp:
+        die("Request::preparsed: not recognised: %r" % tp[:300])
+    split_byte, no_split = ord(mp.group(1)), int(mp.group(2))
     return ["Module RequestGen.",
+            "Definition preparsed_split_byte : N := %d." % split_byte,
+            "Definition preparsed_no_split : N := %d." % no_split,
+            "Definition preparsed_args : list string := [\"request_type\"; \"url\"; \"schema\"; \"hostname\"; \"source_hostname\"; \"third_party\"; \"url\"].",
             "Inductive rform := RSchemeIs (s : string) | RFlag (name : string) | RNot (f : rform) | RAnd (a b : rform) | ROr (a b : rform).",
             "(* no scheme at all: (is_http, is_https, is_supported), type from the raw type *)",
             "Definition no_scheme_flags : bool * bool * bool := (%s, %s, %s)." % (e_http, e_https, e_sup),
